@@ -1,0 +1,81 @@
+//go:build verif
+
+// Contracts for stream framing (message.go): header arithmetic, Decoder limits, Unmarshal.
+// Framing spec (encoding.html, "Serialization Over a Stream"): 4 bytes segment count minus one,
+// 4 bytes per segment size in words, padded to a word boundary.
+package capnp
+
+//@ import "io"
+
+//@ spec
+//@ // header bytes for a message whose last segment has id n
+//@ func hdrBytes(n M) M { return ((n+2)*4 + 7) &^ 7 }
+//@ // a complete header (the 32-bit index arithmetic of segmentSize limits headers to < 4 GiB)
+//@ func hdrOK(h streamHeader) bool {
+//@ 	return len(h.b) >= 8 && M(len(h.b)) >= hdrBytes(M(LE32(h.b, 0))) && LE32(h.b, 0) < 1<<30-1
+//@ }
+//@ end
+
+//@ extern io.ReadFull -> n, err
+//@   -- assumed: the user's reader fills the buffer and does not touch the decoder's own state
+//@   modifies e:uint8
+//@   ensures 0 <= n && n <= len(buf)
+//@   ensures implies(err == nil, n == len(buf))
+//@   ensures bytesUnchangedExcept(buf, 0, len(buf))
+
+//@ func streamHeaderSize -> r
+//@   props C14 C04 C05
+//@   ensures M(r) == hdrBytes(M(maxSeg))
+//@   ensures r%8 == 0 && r >= 8
+
+//@ func streamHeader.maxSegment -> r
+//@   props C14
+//@   requires len(h.b) >= 4
+//@   ensures uint32(r) == LE32(h.b, 0)
+
+//@ func streamHeader.segmentSize -> sz, err
+//@   props C14
+//@   -- (the index 4+i*4 is computed in 32 bits; headers of 4 GiB and more are out of its range)
+//@   requires i < 1<<30-1 && 4*M(i)+8 <= M(len(h.b))
+//@   modifies nothing
+//@   ensures (err == nil) == (LE32(h.b, 4+4*int(i)) < 1<<29)
+//@   ensures implies(err == nil, M(sz) == 8*M(LE32(h.b, 4+4*int(i))))
+
+//@ func streamHeader.totalSize -> sum, err
+//@   props C14
+//@   requires hdrOK(h)
+//@   modifies nothing
+//@   -- no wrap-around: at most 2^30 segments of at most 2^32-8 bytes
+//@   ensures implies(err == nil, M(sum) <= (M(LE32(h.b, 0))+1)*mMaxSeg())
+//@   loop 0 "i <= uint64(h.maxSegment())"
+//@     invariant i <= uint64(LE32(h.b, 0))+1 && M(sum) <= M(i)*mMaxSeg()
+
+//@ func resizeSlice -> r
+//@   props C14
+//@   requires 0 <= size
+//@   ensures len(r) == size
+//@   ensures implies(cap(b) >= size, sameArr(r, b))
+//@   ensures implies(cap(b) < size, fresharr(r) || size == 0)
+
+//@ func hasCapacity -> r
+//@   props C04 C05 C14
+//@   -- never claims room that is not there; exact below 4 GiB of spare capacity
+//@   ensures implies(r, M(sz) <= M(cap(b))-M(len(b)))
+//@   ensures implies(M(cap(b))-M(len(b)) < 1<<32, r == (M(sz) <= M(cap(b))-M(len(b))))
+
+//@ func Decoder.Decode -> msg, err
+//@   props C14
+//@   requires d != nil && d.r != nil
+//@   -- never more than the limit of segments (DESIGN 5.14: taken from the statement)
+//@   assert before "var hdr streamHeader" [C14] segcount: M(maxSeg)+1 <= maxStreamSegments
+//@   -- nothing is allocated or read beyond the configured maximum message size
+//@   assert before "d.hdrbuf = resizeSlice(d.hdrbuf, int(hdrSize))" [C14] hdrcap: hdrSize <= maxSize && M(hdrSize) == hdrBytes(M(maxSeg))
+//@   assert before "buf := make([]byte, int(total))" [C14] cap: M(len(hdr.b))+M(total) <= M(maxSize) && M(total) <= M(maxInt)
+//@   assert before "d.buf = resizeSlice(d.buf, int(total))" [C14] capreuse: M(len(hdr.b))+M(total) <= M(maxSize) && M(total) <= M(maxInt)
+//@   -- the header handed to totalSize/demuxArena is complete
+//@   assert before "total, err := hdr.totalSize()" [C14] hdrcomplete: hdrOK(hdr)
+
+//@ func Unmarshal -> msg, err
+//@   props C14 C01
+//@   requires len(data) <= 1<<32   -- larger inputs would need 32-bit header index arithmetic to be revisited
+//@   assert before "hdr := streamHeader{data[:hdrSize]}" [C14] hdrfits: M(hdrSize) == hdrBytes(M(maxSeg)) && M(hdrSize) <= M(len(data))
